@@ -37,6 +37,7 @@ func init() {
 
 func runC16(c *eng.Ctx) {
 	p := c.P
+	familyGroupContainsItsFirstRow(c)
 	tagsHashIsStateless(c)
 	readOnlyRowIsStateless(c)
 
@@ -845,9 +846,16 @@ func rowsInsideFirstRowsFamilyRange(c *eng.Ctx) {
 					nInc++
 					c.Check(ok, fmt.Sprintf("%s:extend-only-inside-range[%d]", fk, i), at, f, "the group is extended by a row only on the true edge of the membership test", "")
 				}
+				opens := p.Sites(f, eng.StoreField(fiT+".groupStart"))
 				for i, s := range p.Sites(f, eng.StoreField(fiT+".groupEnd")) {
 					sv, _ := storedValue(s.Instr)
 					if _, k := eng.SplitConstAdd(sv); k == 1 && cf == f {
+						// the row that OPENS the group is taken without a test (F59): an increment that follows the opening store and
+						// that no membership test can reach
+						if _, after := eng.Reaches(f, cs[0].Instr, []eng.Site{s}, nil); !after && eng.DominatedBy(f, s.Instr, opens, nil) {
+							c.Check(true, fmt.Sprintf("%s:opening-row-taken[%d]", fk, i), s.Instr, f, "the row that opens the group is part of it", "")
+							continue
+						}
 						checkInc(i, s.Instr)
 						continue
 					}
